@@ -654,6 +654,12 @@ void QXmppOutgoingClient::handleStream(const QDomElement &streamElement)
         // no version specified, signals XMPP Version < 1.0.
         // switch to old auth mechanism if enabled
         if (d->streamVersion.isEmpty() && configuration().useNonSASLAuthentication()) {
+            // no stream features will be sent, so STARTTLS cannot be negotiated on this stream
+            if (configuration().streamSecurityMode() == QXmppConfiguration::TLSRequired && !socket()->isEncrypted()) {
+                warning(u"Server does not support XMPP 1.0 streams, TLS cannot be negotiated"_s);
+                disconnectFromHost();
+                return;
+            }
             startNonSaslAuth();
         }
     }
